@@ -83,3 +83,59 @@ def member_of(route, subject):
     if route in ("hexital_member", "hexital_level"):
         return next(iter(subject.indicators.values()))
     return None
+
+
+class Neighbours:
+    """Other library objects alive in the same process and fed the same instants before the subject is:
+    plain CandleManagers on other timeframes and / or under another UTC offset.  Anything process-global in
+    the library (module-level caches, class attributes used as state) would let them reach the subject.
+    Their own failures are ignored - they are not the subject."""
+
+    def __init__(self, specs, rows):
+        self.items = []
+        for nb in specs or []:
+            try:
+                self.items.append((nb, CandleManager(self._candles(nb, rows), timeframe=nb.get("tf"),
+                                                     timeframe_fill=bool(nb.get("fill")))))
+            except Exception:  # noqa: BLE001
+                pass
+
+    @staticmethod
+    def _candles(nb, rows):
+        from datetime import timezone
+
+        from hexital import Candle
+
+        from .util import ts
+
+        off = nb.get("utc_offset_min")
+        tz = timezone(timedelta(minutes=off)) if off is not None else None
+        shift = nb.get("shift_s", 0)
+        return [Candle(r[1], r[2], r[3], r[4], r[5], timestamp=ts(r[0] + shift).replace(tzinfo=tz)) for r in rows]
+
+    def feed(self, rows):
+        for nb, m in self.items:
+            try:
+                m.append(self._candles(nb, rows))
+            except Exception:  # noqa: BLE001
+                pass
+
+
+def sample_neighbours(rng, tf, utc_offset_min, p=0.15):
+    """Neighbour specs for a subject on timeframe `tf` whose stream carries `utc_offset_min` (None = naive)."""
+    from . import world
+
+    if rng.random() >= p:
+        return []
+    out = []
+    for _ in range(rng.randint(1, 2)):
+        kind = rng.choice(("other_offset", "other_tf", "other_tf"))
+        if kind == "other_offset" and utc_offset_min is not None and tf:
+            # the SAME instants seen from another zone (equal as aware datetimes, different wall clock)
+            other = rng.choice([o for o in (0, 60, 120, 330, -210, 345) if o != utc_offset_min])
+            out.append({"tf": tf, "utc_offset_min": other, "shift_s": (other - utc_offset_min) * 60})
+        elif tf:
+            cands = [world.equiv_spelling(tf), world.day_shifted(tf), "D1", "D2", "D7", "H1", "T5"]
+            t2 = rng.choice([c for c in cands if c.upper() != tf.upper()])
+            out.append({"tf": t2, "utc_offset_min": utc_offset_min})
+    return out
